@@ -408,7 +408,7 @@ def run(rep, tier, seed):
     # the (1, 1) variant also has a category that begins with a path separator ('/A')
     # (1, 2): one save and two "again" steps - e.g. close, use the cassette again, save the held recording again
     variants = [(2, 0, True), (1, 1, True), (1, 2, False)] if tier == 'quick' else [(3, 0, False), (2, 1, True), (1, 1, True), (1, 2, True)]
-    cap = 700 if tier == 'quick' else 40000
+    cap = 700 if tier == 'quick' else 25000
     rnd = random.Random(seed + 15)
     all_exh = True
     with tlc.Scratch() as s:
